@@ -447,22 +447,22 @@ fn random_alloc(rng: &mut Rng) -> Value {
     let max = *rng.pick(&[1u64, 2, 3, 4, 6, 1023, 2000]);
     // directory content: mostly empty or a clean earlier session, sometimes gaps / short files / big files
     let mut pre = vec![];
-    match rng.below(10) {
-        0..=3 => {}
-        4..=5 => {
+    match rng.below(40) {
+        0..=15 => {}
+        16..=23 => {
             for i in 0..1 + rng.below(3) {
                 pre.push(json!([i, 480 + rng.below(5000)]));
             }
         }
-        6 => {
+        24..=29 => {
             for i in 0..4 {
                 if rng.chance(1, 2) {
                     pre.push(json!([i, 480 + rng.below(3000)]));
                 }
             }
         }
-        7 => pre.push(json!([rng.below(2), rng.below(480)])),
-        8 => pre.push(json!([rng.below(3), (1u64 << 30) - rng.below(300)])),
+        30..=34 => pre.push(json!([rng.below(2), rng.below(480)])),
+        35 => pre.push(json!([rng.below(3), (1u64 << 30) - rng.below(300)])),
         _ => pre.push(json!([rng.below(2), 480 + rng.below(100)])),
     }
     let big_files = pre.iter().any(|p| p[1].as_u64().unwrap_or(0) > 1 << 20);
